@@ -97,7 +97,7 @@ func init() {
 		}
 		return []variant{{Name: "race", Race: true, Shards: 1}}
 	},
-		Level:       "held on every executed case: callers {1,2,4,8,16} x keys {1,2,3} x latency {0,10ms,1s} x outcome {value,error,error-then-value} x expiry {never,25ms} x 4 start patterns x 12 (thorough 120, GOMAXPROCS varied) repetitions inside testing/synctest bubbles under the race detector, plus every sequential call/advance pattern up to length 5 (6) against an exact model; in-flight counter and virtual-time execution log inside the supplied function",
+		Level:       "held on every executed case: callers {1,2,4,8,16} x keys {1,2,3} x latency {0,10ms,1s} x outcome {value,error,error-then-value,item+error,item+error-then-value} x expiry {never,25ms} x 4 start patterns x 12 (thorough 120, GOMAXPROCS varied) repetitions inside testing/synctest bubbles under the race detector, plus every sequential call/advance pattern up to length 5 (6) against an exact model; in-flight counter and virtual-time execution log inside the supplied function",
 		Technique:   "in-callback monitor (in-flight counter + execution log) and caller-side log in virtual time (testing/synctest), race detector on",
 		Assumptions: []string{"schedules are those the Go runtime produces inside the bubble (repetitions, GOMAXPROCS varied in the thorough tier); not exhaustive", "not asserted: that a caller which began before the value was cached does not recompute (lookup-then-singleflight window)", "cache.Items are minted through a separate cache because Item has no exported constructor"}})
 	reg(&propCfg{ID: "C20", Pkg: "./props/c20", Variants: func(tier string) []variant {
